@@ -473,6 +473,24 @@ Definition sp_swap (c : cfg) (st : astate) (nx : N) (v1 : nat) (i : N) (v2 : nat
        | _, _ => None
        end.
 
+(** the removal handle of [v1[i]] (remove(i), not yet consumed) swapped with the element handle of [v2[j]], then
+    dropped: [v2[j]] holds what was [v1[i]], the value that was [v2[j]] is destroyed with the handle, [v1] has lost
+    position [i] *)
+Definition sp_swap_temp (c : cfg) (st : astate) (nx : N) (v1 : nat) (i : N) (v2 : nat) (j : N) : option sres :=
+  if Nat.eqb v1 v2 then None
+  else match get_a v1 st, get_a v2 st with
+       | Some a, Some b =>
+           if negb (i <? N.of_nat (length (a_xs a))) || negb (j <? N.of_nat (length (a_xs b)))
+           then Some (panic_res PIndex [] st nx)
+           else
+             let x := nth (N.to_nat i) (a_xs a) 0 in
+             let y := nth (N.to_nat j) (a_xs b) 0 in
+             Some (ok_res [] (drop_ev c y)
+                          (set_a v2 (Some (with_xs b (sp_upd (N.to_nat j) x (a_xs b))))
+                                 (set_a v1 (Some (with_xs a (sp_remove (N.to_nat i) (a_xs a)))) st)) nx)
+       | _, _ => None
+       end.
+
 (** push / insert of a LAZY CLONE of element [sidx] of another vector [src] (any nesting depth of
     lazy_clone()): the clone is a new value made by exactly one Clone call at the moment of consumption and it
     is what the destination receives; the source is untouched; a refused offer (index, full fixed capacity)
@@ -583,7 +601,7 @@ Definition spec_step (c : cfg) (st : astate) (nx : N) (o : op) : option sres :=
            | _, _ => None
            end
   | OWrite _ v idx => sp_write c st nx v idx
-  | OSwap pr v1 i v2 j => if pr =? 0 then sp_swap c st nx v1 i v2 j else None
+  | OSwap pr v1 i v2 j => if pr =? 0 then sp_swap c st nx v1 i v2 j else sp_swap_temp c st nx v1 i v2 j
   | OLazyDown _ v idx => sp_lazy_down c st nx v idx
   | OSpareWrite _ v k => sp_spare_write c st nx v k
   | ODownWrong v k idx =>
